@@ -186,6 +186,28 @@ def main_module_scenario(method, res, case):
         shutil.rmtree(d, ignore_errors=True)
 
 
+def inner_thread_scenario(res, case):
+    """A worker thread started from *inside* a synchronized call of an otherwise
+    single-threaded program (vf/c14_inner_thread.py, a process of its own): none of the
+    worker's synchronized calls may begin before the outer call has returned."""
+    import subprocess
+
+    try:
+        r = subprocess.run([sys.executable, "-B", "-W", "ignore", "-m", "vf.c14_inner_thread"], capture_output=True, text=True, cwd=os.path.dirname(os.path.dirname(os.path.dirname(os.path.abspath(__file__)))), timeout=60, stdin=subprocess.DEVNULL)
+        d = json.loads(r.stdout.strip().splitlines()[-1])
+    except Exception as e:
+        res.inconclusive.append("inner-thread scenario: %s" % type(e).__name__)
+        return
+    res.count("inner-thread programs run")
+    res.count("probe intervals swept", len(d["inner"]) + 1)
+    if d["alive"] or len(d["inner"]) < 4 or not d["nested"]:
+        res.inconclusive.append("inner-thread scenario: the worker made %d of 3 calls (+1 nested), still alive: %s" % (len(d["inner"]), d["alive"]))
+        return
+    early = [iv for iv in d["inner"] if iv[0] < d["outer"][1]]
+    if early:
+        res.violation("C14:overlap", "a thread started inside a synchronized call (%d thread(s) alive at its entry) ran %d synchronized call(s) of its own before that call returned: outer [%d..%d], inner %s" % (d["threads_at_entry"], len(early), d["outer"][0], d["outer"][1], early[:2]), case)
+
+
 def run_shard(shard, env):
     res = Result(shard)
     cfg = shard["cfg"]
@@ -362,6 +384,8 @@ def run_shard(shard, env):
             res.violation("C14:reply-stolen", "%d observations, e.g. %s; start method %s" % (len(stolen), stolen[0], cfg["method"]), case)
         if (shard["index"] in (1, 2) and cfg["method"] != "fork" and "replay" not in shard) or (shard.get("replay") or {}).get("mainmod"):
             main_module_scenario(cfg["method"], res, dict(case, mainmod=True))
+        if (shard["index"] in (0, 3) and "replay" not in shard) or (shard.get("replay") or {}).get("inner_thread"):
+            inner_thread_scenario(res, dict(case, inner_thread=True))
         exits = [p.exitcode for p in procs if p.pid]
         if any(e not in (0, None) for e in exits) and not hung:
             res.inconclusive.append("child exit codes %s (cfg %s)" % (exits, cfg))
